@@ -423,7 +423,9 @@ def band_to_spectrum_level(band_db, n):
 def rms(s, detrend=False, axis=-1):
     if detrend:
         s = signal.detrend(s, axis=axis)
-    return np.mean(s**2, axis=axis)**0.5
+    # Float exponent: integer-typed data (e.g., int16 from an ADC or wav file)
+    # would otherwise overflow silently when squared.
+    return np.mean(s**2.0, axis=axis)**0.5
 
 
 def rms_rfft(x):
